@@ -85,10 +85,22 @@ pub fn run(ctx: &Ctx) -> Report {
     let mut rep = Report::new("weak");
     let ts = types();
     let nrand = ctx.budget(2000, 200_000, 10);
-    let weak64 = nist64();
+    let light = ctx.light();
+    let weak64: Vec<[u8; 8]> = if light {
+        // interpreter slice: the 4 weak and 12 semi-weak keys of SP 800-67 (parity cleared),
+        // each still judged by the semantic rule
+        const L: [u64; 16] = [
+            0x0101010101010101, 0xFEFEFEFEFEFEFEFE, 0xE0E0E0E0F1F1F1F1, 0x1F1F1F1F0E0E0E0E, 0x01FE01FE01FE01FE, 0xFE01FE01FE01FE01,
+            0x1FE01FE00EF10EF1, 0xE01FE01FF10EF10E, 0x01E001E001F101F1, 0xE001E001F101F101, 0x1FFE1FFE0EFE0EFE, 0xFE1FFE1FFE0EFE0E,
+            0x011F011F010E010E, 0x1F011F010E010E01, 0xE0FEE0FEF1FEF1FE, 0xFEE0FEE0FEF1FEF1,
+        ];
+        L.iter().map(|k| { let mut b = k.to_be_bytes(); b.iter_mut().for_each(|x| *x &= 0xFE); b }).filter(|k| des_weak(k)).collect()
+    } else {
+        nist64()
+    };
     rep.extra.insert("x_nist_weak_keys_derived".into(), J::I(weak64.len() as i64));
-    if weak64.len() != 64 {
-        rep.inconclusive.push(format!("weak-key oracle self-check failed: derived {} keys instead of 64", weak64.len()));
+    if weak64.len() != if light { 16 } else { 64 } {
+        rep.inconclusive.push(format!("weak-key oracle self-check failed: derived {} keys", weak64.len()));
         return rep;
     }
     for (ti, t) in ts.iter().enumerate() {
@@ -100,7 +112,7 @@ pub fn run(ctx: &Ctx) -> Report {
         match t.weak_rule {
             "aes" => {
                 // every single-bit key, every single-zero-bit key
-                for bit in 0..ks * 8 {
+                for bit in (0..ks * 8).filter(|b| !light || b % 7 == 0) {
                     let mut k = vec![0u8; ks];
                     k[bit / 8] = 0x80 >> (bit % 8);
                     check(&mut rep, t, &k, false, "single set bit");
@@ -131,13 +143,13 @@ pub fn run(ctx: &Ctx) -> Report {
             "des" => {
                 // the 64 keys x all 256 parity patterns (exhaustive)
                 for wk in &weak64 {
-                    for par in 0..256u32 {
+                    for par in (0..256u32).filter(|p| !light || p % 61 == (ctx.seed % 61) as u32) {
                         let k: Vec<u8> = wk.iter().enumerate().map(|(i, b)| b | ((par >> i) & 1) as u8).collect();
                         check(&mut rep, t, &k, false, "NIST weak key x parity pattern");
                     }
                     // each of the 56 effective bits flipped
                     for bit in 0..64 {
-                        if bit % 8 == 7 {
+                        if bit % 8 == 7 || (light && bit % 9 != 0) {
                             continue;
                         }
                         let mut k = wk.to_vec();
@@ -145,7 +157,7 @@ pub fn run(ctx: &Ctx) -> Report {
                         check(&mut rep, t, &k, false, "weak key with one effective bit flipped");
                     }
                 }
-                rep.set(&t.name, "weak_x_parity_exhaustive", 64 * 256);
+                rep.set(&t.name, "weak_x_parity_exhaustive", if light { 0 } else { 64 * 256 });
                 for i in 0..nrand {
                     let cl = gen::pick_class(&mut rng, i);
                     let k = gen::gen(&mut rng, 8, cl);
@@ -162,7 +174,7 @@ pub fn run(ctx: &Ctx) -> Report {
                     // weak part in each position, random parity
                     let pos = rng.below(parts);
                     let par = rng.next() as u32;
-                    let wk = weak64[rng.below(64)];
+                    let wk = weak64[rng.below(weak64.len())];
                     for j in 0..8 {
                         k2[pos * 8 + j] = wk[j] | ((par >> j) & 1) as u8;
                     }
